@@ -105,9 +105,9 @@ theorem C13_ctor_outcome (ctx : Ctx) (hnd : ctx.cfg.dry = false) (n : Nat) (node
     (b.k = .err → (errOuts ctx.env node.fn).isEmpty = false →
         (ctorTail ctx n node args st).1 = .error (.err (.ctorFailed (.user node.fn.id x)))) := by
   refine ⟨?_, ?_, ?_⟩
-  · intro hk hr; simp [ctorTail, callBody, hnd, hk, hr]
-  · intro hk hr; simp [ctorTail, callBody, hnd, hk, hr]
-  · intro hk he; simp [ctorTail, callBody, hnd, hk, he]
+  · intro hk hr; simp [ctorTail, ctorOutcome, callBody, hnd, hk, hr]
+  · intro hk hr; simp [ctorTail, ctorOutcome, callBody, hnd, hk, hr]
+  · intro hk he; simp [ctorTail, ctorOutcome, callBody, hnd, hk, he]
 
 theorem C13_deco_outcome (ctx : Ctx) (hnd : ctx.cfg.dry = false) (d : Nat) (node : DecoNode) (args : List Val) (st : St) :
     let x := st.execCount node.fn.id
@@ -117,9 +117,9 @@ theorem C13_deco_outcome (ctx : Ctx) (hnd : ctx.cfg.dry = false) (d : Nat) (node
     (b.k = .err → (errOuts ctx.env node.fn).isEmpty = false →
         (decoTail ctx d node args st).1 = .error (.err (.user node.fn.id x))) := by
   refine ⟨?_, ?_, ?_⟩
-  · intro hk hr; simp [decoTail, callBody, hnd, hk, hr]
-  · intro hk hr; simp [decoTail, callBody, hnd, hk, hr]
-  · intro hk he; simp [decoTail, callBody, hnd, hk, he]
+  · intro hk hr; simp [decoTail, decoOutcome, callBody, hnd, hk, hr]
+  · intro hk hr; simp [decoTail, decoOutcome, callBody, hnd, hk, hr]
+  · intro hk he; simp [decoTail, decoOutcome, callBody, hnd, hk, he]
 
 /-- non-vacuity (test): a user error four wrappers deep -/
 example : rootCause (argsFailed (paramSingle ⟨10, "", ""⟩ 3 (argsFailed (paramGroup ⟨11, "", "g"⟩ 2 (ctorFailed (user 7 1)))))) = user 7 1 := rfl
